@@ -485,7 +485,16 @@ def _config_init_hook(ex, a, st, node):
     st.emit("ConfigInit")
     out = []
     s_none = st.fork()
-    ctx = SOpaque("ProjectContext", z3.Const(fresh_name("ctx"), V.opaque_sort("ProjectContext")))
+    from pyvc.models import PathVal
+
+    cassume = []
+    ctx = SRec(
+        config.ProjectContext,
+        dict(path=PathVal(V.sstr(fresh_name("ctx.path"))), config_filepath=PathVal(V.sstr(fresh_name("ctx.config_filepath"))), config_rel_path=V.sstr(fresh_name("ctx.config_rel_path")), config_format=KEnum(("toml", "cfg")).fresh(fresh_name("ctx.config_format"), cassume), vcs_type=None),
+    )
+    for x in cassume:
+        st.assume(x)
+        s_none.assume(x)
     out.append(Val((ctx, None), s_none))
     assumptions = []
     cfg = k_config().fresh(fresh_name("cfg"), assumptions)
@@ -570,6 +579,10 @@ def _update_clause(raised):
             cs += [v_eq(c_args.new_version, a.new_version), v_eq(c_args.commit_message, a.commit_message), v_eq(c_args.tag_message, a.tag_message), c_args.cfg is a.cfg]
         if "rewrite" in ev:
             cs += [ev["rewrite"][3] is field(a.cfg, "file_patterns")]
+            # ... with the parsed NEW version (the same arguments the diff path uses: C13)
+            parsed = [x for x in cx.new if x[0] == "CallResult" and x[1].endswith("parse_version_info")]
+            cs.append(len(parsed) >= 1 and ev["rewrite"][4] is parsed[-1][2] and parsed[-1][3].version_str is a.new_version)
+            cs.append(b_iff(ev["rewrite"][1] == "v2", v_truthy(field(a.cfg, "is_new_pattern"))))
             if "dirty_check" in ev and ev["dirty_check"][2] != "return":
                 return False  # never rewrite after a failed dirty check
         if not raised:
@@ -716,6 +729,13 @@ def _update_common(a, cx, need_gate):
     starts = [e for e in cx.new if e[0] == "CallResult" and e[1] == "bumpver.cli._update_cfg_from_vcs"]
     if starts:
         cs.append(b_not(v_truthy(a.ignore_vcs_tag)))
+        # the tag lookup works on the configuration *after* the command-line VCS options
+        # (--tag-scope etc.) were applied: its argument is the result of _parse_vcs_options
+        opts_ = [e for e in cx.new if e[0] == "CallResult" and e[1] == "bumpver.cli._parse_vcs_options"]
+        if len(opts_) != 1 or len(starts) != 1 or starts[0][3].cfg is not opts_[0][2]:
+            return None
+        if cx.new.index(opts_[0]) > cx.new.index(starts[0]):
+            return None
     elif gates:
         cs.append(v_truthy(a.ignore_vcs_tag))
     # messages: templates rendered with the documented keys bound to start and new version
